@@ -157,7 +157,7 @@ impl CidState {
                 "RETIRE_CONNECTION_ID when CIDs aren't in use",
             ));
         }
-        if sequence > self.issued {
+        if sequence >= self.issued {
             debug!(
                 sequence,
                 "got RETIRE_CONNECTION_ID for unissued sequence number"
